@@ -147,6 +147,17 @@ func drawWidth(r *Run, o uiOpts) int {
 	return 12 + t.Draw(109)
 }
 
+// drawHeight: 2 to 40 rows; in size sweeps now and then a very tall window (a terminal on a
+// portrait monitor with a tiny font, a pseudo-terminal given an absurd size by a script).
+func drawHeight(r *Run, o uiOpts) int {
+	t := r.W
+	if o.sizes && t.Chance(1, 25) {
+		r.S.Probe("ui_very_tall_terminal")
+		return []int{200, 513, 600, 1025, 3000}[t.Draw(5)] + t.Draw(3)
+	}
+	return 2 + t.Draw(39)
+}
+
 func scenUI(r *Run, o uiOpts) {
 	t := r.W
 	// some racing towns carry strings that the scrubber really alters (tabs, escapes): code that
@@ -154,7 +165,7 @@ func scenUI(r *Run, o uiOpts) {
 	tn := buildTown(r, TownOpts{Hostile: o.hostile || (o.racing && t.Chance(1, 3)), RichLinks: o.rich || (o.racing && t.Chance(1, 3)), Paged: o.paged, Markdown: o.racing, DeadParents: o.racing})
 	w, h := 80, 24
 	if o.sizes || t.Chance(1, 3) {
-		w, h = drawWidth(r, o), 2+t.Draw(39)
+		w, h = drawWidth(r, o), drawHeight(r, o)
 	}
 	u := newUISession(r, w, h)
 	u.racing = o.racing
@@ -288,7 +299,7 @@ func scenUI(r *Run, o uiOpts) {
 			}
 			advance()
 			if t.Chance(1, 6) || (o.sizes && t.Chance(1, 2)) {
-				u.Resize(drawWidth(r, o), 2+t.Draw(39))
+				u.Resize(drawWidth(r, o), drawHeight(r, o))
 			}
 		}
 		for busy() && r.S.Steps() < stepCap {
@@ -328,7 +339,7 @@ func scenUI(r *Run, o uiOpts) {
 			}
 		}
 		if o.sizes || t.Chance(1, 8) {
-			nw, nh := drawWidth(r, o), 2+t.Draw(39)
+			nw, nh := drawWidth(r, o), drawHeight(r, o)
 			if t.Chance(1, 3) {
 				nh = []int{2, 3, 4, 5}[t.Draw(4)]
 			}
@@ -454,6 +465,13 @@ func checkHookRecords(r *Run, u *UISession, tn *Town) {
 		for _, h := range variants(l.Href) {
 			if e, _, _, ok := essenceOf(mimeText); ok {
 				cands = append(cands, cand{h, e})
+				continue
+			}
+			// no usable media type: an object that says it is an image, a video or a sound is at
+			// least that; for other kinds the kind of thing being opened decides (any default)
+			switch l.Kind {
+			case "Image", "Video", "Audio":
+				cands = append(cands, cand{h, strings.ToLower(l.Kind) + "/*"})
 				continue
 			}
 			for _, d := range defaults {
